@@ -99,7 +99,7 @@ func runC06(r *Run) {
 		info := v.info
 		ruleStateWriters(r, v, states)
 		ruleTransitionTable(r, v, states)
-		ruleSnoopOrder(r, v)
+		ruleSnoopOrder(r, v, "R06.3")
 		pe := newProvEngine(w, v.pkg)
 		_, byVar := resolvedCaches(w, v)
 		pe.cacheLine = func(e ast.Expr) int64 {
@@ -457,7 +457,7 @@ func stName(s int64) string {
 
 // ruleSnoopOrder: R06.3 — in every snoop action, data moves before the line is
 // removed, and the line is removed before the command completes.
-func ruleSnoopOrder(r *Run, v *variant) {
+func ruleSnoopOrder(r *Run, v *variant, rule string) {
 	info := v.info
 	for _, f := range v.pkg.Syntax {
 		for _, d := range f.Decls {
@@ -543,7 +543,7 @@ func ruleSnoopOrder(r *Run, v *variant) {
 					}
 					return true
 				})
-				r.check(good, "R06.3", fmt.Sprintf("%s.%s:snoop(%s)", v.rel, declName(fd), co.Name()), cc.Pos(), "in the %s action the data moves to the next level first (write-back only), then the line leaves the cache, then the command completes %s", co.Name(), why)
+				r.check(good, rule, fmt.Sprintf("%s.%s:snoop(%s)", v.rel, declName(fd), co.Name()), cc.Pos(), "in the %s action the data moves to the next level first (write-back only), then the line leaves the cache, then the command completes %s", co.Name(), why)
 				return true
 			})
 		}
